@@ -32,7 +32,8 @@ def build(n, edges, mode, indir=()):
     for (s, d, k, sp) in edges:
         if s in indir:
             # the importer sits in m/: a sibling is `x`, a root file is `../x`
-            tpl = SPELL[sp] if d in indir else "../" + SPELL[sp]
+            # (a root file is also found through the unchanged-url fallback of fix 3dfdada)
+            tpl = SPELL[sp] if (d in indir or (s + d + sp) % 2) else "../" + SPELL[sp]
         else:
             tpl = SPELL_M[sp] if d in indir else SPELL[sp]
         pos = len(bodies[s]) if (len(bodies[s]) + d) % 2 else 0
